@@ -5,11 +5,13 @@
       C09_float_operand        any Float operand: the IEEE / libm operation on the double values
       C09_floor/ceil/round/trunc  the Integer returned is the correctly rounded mathematical integer
                                (Zfloor / Zceil / round-half-away / Ztrunc of the real value), for every double
-      C09_no_panic             never a panic *)
+      C09_no_panic             never a panic
+      C09_integers_in_range    every Integer that eval_number returns lies in [-2^63, 2^63 - 1] (for every tree whose Integer
+                               leaves do): an Integer result is never a wrapped or fabricated value *)
 From Coq Require Import List ZArith Reals Bool Lia.
 From Flocq Require Import Core.Core IEEE754.BinarySingleNaN.
 From SC Require Import Base.Res Base.F64 Base.RustInt Base.Num Base.Oracle Lang.Syntax Eval.EvalNum
-  Proofs.ParserWf Proofs.NoPanic Proofs.I64Facts Proofs.NumberFrom.
+  Proofs.ParserWf Proofs.NoPanic Proofs.I64Facts Proofs.NumberFrom Proofs.NumRange.
 Import ListNotations.
 Local Open Scope Z_scope.
 
@@ -106,3 +108,8 @@ Example C09_examples :
     match bin_num L BDivide (Int 7) (Int 2) with Ok (Flt r) => bits_of_f64 r | _ => 0 end = 0x400C000000000000 /\
     bin_num L BDivide (Int 8) (Int 2) = Ok (Int 4).
 Proof. intros. repeat split; vm_compute; reflexivity. Qed.
+
+Theorem C09_integers_in_range :
+  forall (L : libm) (a : node number) z, leaves_ok a = true -> eval_num L a = Ok (Int z) -> in_i64 z = true.
+Proof. intros L a z Hl H. exact (eval_num_in_range L a (Int z) Hl H). Qed.
+Print Assumptions C09_integers_in_range.
